@@ -43,6 +43,12 @@ nni_mtx_lock(nni_mtx *m)
 	/* e.g. nni_msgq_close(NULL): the mutex is the first member of an object that was never allocated */
 	CHECK(m != NULL, "nni_mtx_lock(NULL): the object the lock lives in does not exist (null pointer dereference)");
 	ASSUME(m != NULL);
+#if !VH_NATIVE
+	/* a lock reached through a null-derived or dangling object pointer (e.g. &((T *) NULL)->queues[i].lock): report it here
+	 * and end the path - symbolic execution of writes through such a pointer does not terminate in practice */
+	CHECK(__CPROVER_rw_ok(m, sizeof(*m)), "nni_mtx_lock on a mutex that is not inside a live object (null-derived or dangling pointer)");
+	ASSUME(__CPROVER_rw_ok(m, sizeof(*m)));
+#endif
 	/* held by a suspended frame of another (simulated) thread: this schedule is
 	 * not executable as a nested one (the real thread would wait) - prune it */
 	ASSUME(*env_mtx_word(m) == 0 || *env_mtx_word(m) == env_sched_depth + 1);
